@@ -619,25 +619,31 @@ impl<T: Config> UdpProtocol<T> {
             return;
         }
 
-        // filter packets that don't match the magic if we have set it already
-        if self.remote_magic != 0 && msg.header.magic != self.remote_magic {
+        let synchronizing = matches!(
+            self.state,
+            ProtocolState::Initializing | ProtocolState::Synchronizing
+        );
+        let handshake_message = matches!(
+            msg.body,
+            MessageBody::SyncRequest(_) | MessageBody::SyncReply(_)
+        );
+
+        // filter packets that don't match the magic if we have set it already; while synchronizing,
+        // handshake messages are judged by their nonce instead (the peer may have restarted)
+        if self.remote_magic != 0
+            && msg.header.magic != self.remote_magic
+            && !(synchronizing && handshake_message)
+        {
             trace!("Received message with wrong magic; ignoring");
             return;
         }
 
-        // Until the handshake has completed we do not know the peer's magic yet, so the filter
-        // above cannot tell its packets from those of another (e.g. earlier) session using the same
-        // address. Only handshake messages are meaningful in that phase; anything else - the peer's
-        // first inputs included, which it will retransmit - is dropped rather than trusted.
-        if matches!(
-            self.state,
-            ProtocolState::Initializing | ProtocolState::Synchronizing
-        ) && !matches!(
-                msg.body,
-                MessageBody::SyncRequest(_) | MessageBody::SyncReply(_)
-            )
-        {
-            trace!("Received non-handshake message before synchronization; ignoring");
+        // Until a handshake reply has told us the peer's magic, the filter above cannot tell its
+        // packets from those of another (e.g. earlier) session using the same address. Only
+        // handshake messages are meaningful in that phase; anything else is dropped rather than
+        // trusted (the real peer retransmits its inputs until they are acknowledged).
+        if synchronizing && self.remote_magic == 0 && !handshake_message {
+            trace!("Received non-handshake message before the peer is known; ignoring");
             return;
         }
 
@@ -682,6 +688,9 @@ impl<T: Config> UdpProtocol<T> {
         if !self.sync_random_requests.remove(&body.random_reply) {
             return;
         }
+        // the reply answers one of our own requests, so it comes from the real peer: from now on its
+        // magic identifies it (its inputs may arrive before our handshake has completed)
+        self.remote_magic = header.magic;
         // the sync reply is good, so we send a sync request again until we have finished the required roundtrips. Then, we can conclude the syncing process.
         self.sync_remaining_roundtrips -= 1;
         if self.sync_remaining_roundtrips > 0 {
